@@ -328,7 +328,8 @@ def s3(chk: Check, proj: Project, w) -> None:
     f = dm.func("get_script_url")
     rv = calls(f, "reverse")
     if not rv:
-        raise AnalysisError("get_script_url: reverse() not found")
+        chk.violated("S3", "dependencies:get_script_url:built-by-reverse", dm.loc(f), "get_script_url no longer builds the URL with django.urls.reverse(<endpoint name>): a hand-formatted path ignores where the project mounted django_components.urls (path('ui/', include(...))), so every announced script URL answers 404 there")
+        return
     kw = kwarg(rv[0], "kwargs")
     keys: Set[str] = set()
     for n in ast.walk(kw) if kw is not None else []:
